@@ -38,10 +38,10 @@ VARIANTS += [
 
 VARIANTS += [
     M('C16', 'provenance-overwrites-explicit-encoding', E(CW, "                    if dialect.get('encoding') is None:\n                        dialect['encoding'] = encoding", "                    if encoding is not None:\n                        dialect['encoding'] = encoding"),
-      rule='C16-EXPLICIT', key="dialect['encoding']"),
+      rule='C16-EXPLICIT', key='explicit'),
     M('C16', 'provenance-overwrites-explicit-delimiter', [E(CW, "                            if dialect.get('delimiter') is None:\n                                dialect['delimiter'] = delimiter", "                            if delimiter:\n                                dialect['delimiter'] = delimiter"),
                                                            E(CW, "                    if dcdialect and not dialect.get('delimiter'):", "                    if dcdialect:")],
-      rule='C16-EXPLICIT', key="dialect['delimiter']"),
+      rule='C16-EXPLICIT', key='explicit'),
     M('C16', 'refactor-absence-by-membership', E(CW, "                    if dialect.get('encoding') is None:\n                        dialect['encoding'] = encoding", "                    if not dialect.get('encoding'):\n                        dialect['encoding'] = encoding"), kind='refactor'),
 ]
 
